@@ -192,6 +192,19 @@ static void part_pointwise(Ctx& ctx, const PW& k, uint64_t m, int range) {
   std::string err = judge_pointwise(k, m, r.as<double>(), r0.data(), a.as<double>(), b.as<double>());
   if (err.empty() && (memcmp(a.p, as.data(), a.bytes) || memcmp(b.p, bs.data(), b.bytes))) err = "an operand was modified";
   if (err.empty() && (!r.guards_ok() || !a.guards_ok() || !b.guards_ok())) err = "write outside the 2m doubles";
+  // the product is also what the kernel must deliver when the result vector IS one of the operands (r == a is how the library itself
+  // calls the mul kernels; r == b and r == a == b are the same call by commutativity): judged against the ORIGINAL operand values
+  if (!k.addmul && range != 2) for (int al = 1; al <= 3 && err.empty(); ++al) {
+    GBuf r2(2 * m * 8, 8 * al);
+    const double* A0 = (const double*)as.data(); const double* B0 = al == 3 ? A0 : (const double*)bs.data();
+    void* pa = (al == 1 || al == 3) ? r2.p : a.p; void* pb = (al == 2 || al == 3) ? r2.p : b.p;
+    memcpy(a.p, as.data(), a.bytes); memcpy(b.p, bs.data(), b.bytes);
+    memcpy(r2.p, al == 2 ? bs.data() : as.data(), r2.bytes);
+    k.f(&pc, r2.p, pa, pb);
+    err = judge_pointwise(k, m, r2.as<double>(), r0.data(), A0, B0);
+    if (!err.empty()) err = std::string(al == 1 ? "r == a: " : al == 2 ? "r == b: " : "r == a == b: ") + err;
+    if (err.empty() && !r2.guards_ok()) err = "write outside the 2m doubles (in place)";
+  }
   if (!err.empty()) ctx.violation(id, err);
   ctx.end_case(true);
 }
